@@ -11,6 +11,18 @@ from pathlib import Path
 V = Path(__file__).resolve().parent.parent
 ENV = dict(os.environ, GOFLAGS="-mod=mod", GOPROXY="off", GOSUMDB="off", GOTOOLCHAIN="local")
 
+def _cleanup_alt(scratch):
+    """remove the harness binaries and generated go.mod built for a scratch tree (vlib names them by a tag of its path)"""
+    import hashlib, glob, shutil
+    tag = hashlib.sha1(str(Path(scratch).resolve()).encode()).hexdigest()[:8]
+    for f in glob.glob(str(V / ".work" / "bin" / f"*-{tag}")):
+        try:
+            os.remove(f)
+        except OSError:
+            pass
+    shutil.rmtree(V / ".work" / f"alt-{tag}", ignore_errors=True)
+
+
 def sh(cmd, cwd=None, env=None, timeout=7200):
     p = subprocess.run(cmd, shell=True, cwd=cwd, env=env or ENV, capture_output=True, text=True, timeout=timeout)
     return p.returncode, p.stdout + p.stderr
@@ -58,6 +70,7 @@ def main():
             (d / "meta.json").write_text(json.dumps(meta, indent=1))
             print(i, "caught_by", caught, {p: (r["violations"], r["with_failing_input"]) for p, r in res.items()})
         finally:
+            _cleanup_alt(scratch)
             sh(f"git -C /repo worktree remove --force {scratch}")
             sh("git -C /repo worktree prune")
 
